@@ -11,7 +11,7 @@ from hypothesis import strategies as hst
 
 from sqv import core, hyp
 from sqv.core import Failure, Stats
-from sqv.spec import refsem
+from sqv.spec import refparse, refsem
 from sqv.spec.neutral import neutral
 from sqv.values import canon
 
@@ -79,8 +79,8 @@ def eval_impl(src, names, ast_body, use_names=True):
 
 def eval_ref(src, names, ast_body):
     p = parser()
-    tree = neutral(p.parse(src))
-    ast_r = {'h': ('Lambda', [('Name', 'a')], neutral(p.parse(ast_body)))} if ast_body else None
+    tree = refparse.parse_text(src)       # not the implementation's own tree
+    ast_r = {'h': ('Lambda', [('Name', 'a')], refparse.parse_text(ast_body))} if ast_body else None
     out, _ = refsem.run(tree, names, ast_names=ast_r)
     return out
 
